@@ -398,6 +398,17 @@ impl HuginnNetTcp {
         )
     }
 
+    /// Per-packet entry for external runtime monitors: runs the private `process_packet`
+    /// (filter, parse, analyse) on one frame with a caller-owned connection tracker.
+    #[cfg(feature = "verif-hooks")]
+    pub fn verif_process_packet(
+        &self,
+        packet: &[u8],
+        connection_tracker: &mut TtlCache<ConnectionKey, TcpTimestamp>,
+    ) -> Result<TcpAnalysisResult, HuginnNetTcpError> {
+        self.process_packet(packet, connection_tracker)
+    }
+
     /// Processes a single packet and extracts TCP information if present.
     ///
     /// # Parameters
